@@ -163,7 +163,7 @@ func (s *State) LoadIntermediate() {
 		gcmn.PanicSanity(gcmn.Fmt("State mismatch for ReceiptsHash. Got %X, Expected %X", s2.ReceiptsHash, s.ReceiptsHash))
 	}
 
-	s.setBlockAndValidators(s2.LastBlockHeight, s2.LastNonEmptyHeight, s2.LastBlockID, s2.LastBlockTime, s2.Validators.Copy(), s2.LastValidators.Copy())
+	s.setBlockAndValidators(s2.LastBlockHeight, s2.LastNonEmptyHeight, s2.LastBlockID, s2.LastBlockTime, s2.LastValidators.Copy(), s2.Validators.Copy())
 }
 
 func (s *State) SetBlockExecutable(ex IBlockExecutable) {
